@@ -87,8 +87,14 @@ pub fn via_binary(s: &Scenario, version: u8, perm_seed: Option<u64>) -> (Vec<u8>
         let mut rng = Rng::new(seed);
         rng.shuffle(&mut o.terms);
         rng.shuffle(&mut o.parents);
+        for p in o.parents.iter_mut() {
+            rng.shuffle(&mut p.1);
+        }
         for r in o.recs.iter_mut() {
             rng.shuffle(r);
+            for x in r.iter_mut() {
+                rng.shuffle(&mut x.2);
+            }
         }
     }
     let bytes = enc::encode(&o, version);
